@@ -100,6 +100,24 @@ def names_then_monitor(rng):
     return {'cfg': {}, 'rounds': rounds}
 
 
+def filter_on_departed(rng):
+    """a monitor whose filter names another client's unique name (as destination or sender) keeps seeing what is addressed
+    to that name after the client has left -- the calls nobody can deliver any more and the errors the bus answers them
+    with -- exactly like a monitor that filters nothing"""
+    rounds = [{'ops': {str(s): [{'k': 'connect', 'uid': 0}, {'k': 'hello'}] +
+                       ([{'k': 'addmatch', 'rule': "type='signal'"}] if rng.random() < 0.5 else [])}} for s in (1, 2, 3, 4)]
+    filt = rng.choice([["destination='{u3}'"], ["destination='{u3}'", "type='error'"], ["sender='{u3}'", "destination='{u3}'"]])
+    rounds.append({'ops': {'2': [{'k': 'monitor', 'rules': filt, 'flags': 0}]}})
+    if rng.random() < 0.5:
+        rounds.append({'ops': {'4': [{'k': 'monitor', 'rules': [], 'flags': 0}]}})
+    call = lambda ser: {'k': 'send', 'ty': 1, 'dst': {'slot': 3}, 'path': '/a', 'ifc': 'com.example.I', 'mem': 'Ma', 'sig': 'u', 'body': [ser], 'ser': ser, 'fl': 0}
+    rounds.append({'ops': {'1': [call(6001)]}})
+    rounds.append({'ops': {'3': [{'k': rng.choice(['close', 'aclose'])}]}})
+    rounds.append({'ops': {'1': [call(6002), {'k': 'send', 'ty': 4, 'dst': {'slot': 3}, 'path': '/a', 'ifc': 'com.example.I', 'mem': 'Sig', 'sig': '', 'body': []}]}})
+    rounds.append({'ops': {'1': [{'k': 'query', 'q': 'list'}]}})
+    return {'cfg': {}, 'rounds': rounds}
+
+
 def gen(rng, i):
     if i % 2 == 1 and gen.last is not None:
         # the same history without monitors: BecomeMonitor ops (and what the monitor says afterwards) removed
@@ -125,6 +143,9 @@ def gen(rng, i):
         return gen.last
     if i % 8 == 2:
         gen.last = names_then_monitor(rng)
+        return gen.last
+    if i % 16 == 12:
+        gen.last = filter_on_departed(rng)
         return gen.last
     g = gen_bus.Gen(rng, nslots=4, nnames=2, w=W, eavesdrop=0.1, odd_rules=0.05,
                     cfg={'replyTimeoutMs': 300} if i % 6 == 4 else None)
